@@ -564,10 +564,12 @@ _target = st.one_of(st.integers(0, 60), st.integers(0, 60), st.integers(0, 60), 
                     st.sampled_from([4000, 8000, 65535, 65536]), st.integers(0, 20000))
 _spec = st.tuples(_ids, _target, _tail).map(list)
 _spec_small = st.tuples(_ids, st.integers(0, 12), _tail).map(list)
-_action = st.one_of(st.just(["pass"]), st.just(["pass"]), st.just(["drop"]),
-                    st.tuples(st.just("set"), _spec).map(list),
-                    st.tuples(st.just("rot"), st.integers(1, 9)).map(list),
-                    st.tuples(st.just("app"), _spec_small).map(list))
+from stream_harness import weighted  # noqa: E402
+
+_action = weighted((6, st.just(["pass"])), (2, st.just(["drop"])),
+                   (2, st.tuples(st.just("set"), _spec).map(list)),
+                   (2, st.tuples(st.just("rot"), st.integers(1, 9)).map(list)),
+                   (2, st.tuples(st.just("app"), _spec_small).map(list)))
 _side = st.integers(0, 1)
 _via = st.sampled_from(["raw", "raw", "ws"])
 _ping = st.tuples(st.just("p"), _side, st.sampled_from(["ping", "pong"]), st.binary(max_size=125)).map(list)
@@ -575,7 +577,7 @@ _inject_small = st.tuples(st.just("i"), _side, st.booleans(), _spec_small, _acti
 _inject = st.tuples(st.just("i"), _side, st.booleans(), _spec, _action).map(list)
 _msg_small = st.tuples(st.just("m"), _side, st.booleans(), _spec_small, st.lists(st.integers(0, 50), max_size=1),
                        st.just([]), _action, _via, st.just([])).map(list)
-_simple = st.one_of(_ping, _inject_small, _msg_small)
+_simple = weighted((2, _ping), (1, _inject_small), (1, _msg_small))
 _msg = st.tuples(st.just("m"), _side, st.booleans(), _spec, st.lists(st.integers(0, 30000), max_size=4),
                  st.lists(st.lists(_simple, max_size=2), max_size=3), _action, _via,
                  st.lists(st.integers(0, 30000), max_size=3)).map(list)
@@ -597,5 +599,5 @@ _deflate = st.one_of(
 
 
 def strategy(ctx):
-    op = st.one_of(_msg, _msg, _msg, _ping, _inject, _close)
+    op = weighted((12, _msg), (2, _ping), (3, _inject), (2, _close))
     return st.fixed_dictionaries({"deflate": _deflate, "ops": st.lists(op, min_size=1, max_size=7)})
